@@ -100,6 +100,33 @@ pub fn run(ctx: &mut Ctx) {
                     prog.push(i("CODE.DEFINITION"));
                     kinds.push("definition".into());
                 }
+                7 if r.bool() => {
+                    // a definition executed while the quote flag is pending: NAME.QUOTE must survive it
+                    // and still apply to the NEXT name
+                    let v = value_of(&mut r, ty, &mut uniq);
+                    prog.push(i("NAME.QUOTE"));
+                    prog.push(SItem::Name(nm.into()));
+                    match ty {
+                        "CODE" => {
+                            prog.push(i("CODE.QUOTE"));
+                            prog.push(v);
+                            prog.push(i("NAME.QUOTE"));
+                            prog.push(i("CODE.DEFINE"));
+                        }
+                        "EXEC" => {
+                            prog.push(i("NAME.QUOTE"));
+                            prog.push(i("EXEC.DEFINE"));
+                            prog.push(v);
+                        }
+                        _ => {
+                            prog.push(v);
+                            prog.push(i("NAME.QUOTE"));
+                            prog.push(i(&format!("{}.DEFINE", ty)));
+                        }
+                    }
+                    prog.push(SItem::Name(NAMES[r.below(3)].into()));
+                    kinds.push(format!("define-under-quote-{}", ty));
+                }
                 _ => {
                     // define without quoting: the name is executed (if bound) instead of reaching NAME
                     let v = value_of(&mut r, "INTEGER", &mut uniq);
